@@ -332,7 +332,7 @@ inductive Leaf where
   | lrem (i : Nat)                -- `x.toList().remove(iterator to item i)`
   | aapp (src : Val)              -- `x.toArray().append(src)`
   | arem (i : Nat)                -- `x.toArray().remove(i)`
-  | mput (k : Str) (src : Val)    -- `x.toMap().insert(k, src)`
+  | mput (k : Str) (src : Val)    -- `x.toMap().append(k, src)` (= insert at the end)
   | mrem (k : Str)                -- `x.toMap().remove(k)`
   | sapp (s : Str)                -- `x.toString().append(s)`
 
